@@ -57,7 +57,7 @@ def search(prop, names, failure, repo):
             res.setdefault('oracle_failures', []).append(m.group(1))
             continue
         mio = re.search(r'actual:\s*(\d+) octet\(s\) on stdout, (\d+) on stderr', bl)
-        if prop == 'C19' and mio and int(mio.group(1)) == 0 and int(mio.group(2)) > 0:
+        if prop == 'C19' and not (mio and int(mio.group(1)) > 0) and 'the same result' not in bl:
             # octets on stderr from a crashing child are the runtime's panic/abort message: C01's business
             c01 = search('C01', names, failure, repo)
             if c01 and c01.get('failing_input'):
